@@ -105,8 +105,17 @@ def main():
                         pre.append((0, 1, rng.randrange(n)))
                     else:
                         a = rng.randrange(n)
-                        pre.append((a, rng.randint(1, 3), rng.randrange(a, n)))
-                slab = "".join("[%d:%d:%d]" % t for t in pre)
+                        b_ = rng.randrange(a, n)
+                        pre.append((a, 1 if (a == b_ and rng.random() < 0.5) else rng.randint(1, 3), b_))
+                def slab_text(t):
+                    # the short forms a person writes by hand: [start:stop] when the stride is 1, [k] for one element
+                    a_, s_, b_ = t
+                    if a_ == b_ and s_ == 1 and rng.random() < 0.6:
+                        return "[%d]" % a_
+                    if s_ == 1 and rng.random() < 0.5:
+                        return "[%d:%d]" % (a_, b_)
+                    return "[%d:%d:%d]" % t
+                slab = "".join(slab_text(t) for t in pre)
                 pre_np = tuple(slice(a, b + 1, s) for a, s, b in pre)
                 stats["with_url_constraint"] += 1
             else:
@@ -220,6 +229,44 @@ def main():
                                            "shape": list(shape), "variable": path, "error": repr(e)[:300]})
         except Exception as e:  # noqa
             direct.append({"law": "dataset opens over DAP4", "error": repr(e)[:300]})
+        # DAP4 opened with a hyperslab in the URL: a history of reads on ONE proxy (the whole variable first, then parts of it)
+        pre4 = []
+        for n in shape:
+            a_ = rng.randrange(n)
+            pre4.append((a_, rng.randint(1, 2), rng.randrange(a_, n)))
+        slab4 = "".join("[%d:%d:%d]" % t for t in pre4)
+        pre4_np = tuple(slice(a_, b_ + 1, s_) for a_, s_, b_ in pre4)
+        try:
+            for path, arr in (("x", src), ("grp/y", src.astype("f8") / 4)):
+                base4 = arr[pre4_np]
+                c4 = open_url("http://localhost:8001/?dap4.ce=/%s%s" % (path, slab4), application=app4, protocol="dap4")
+                proxy = c4[path]
+                if tuple(proxy.shape) != base4.shape:
+                    direct.append({"law": "a DAP4 dataset opened with a hyperslab declares the constrained shape", "url_constraint": slab4,
+                                   "shape": list(shape), "got": list(proxy.shape), "want": list(base4.shape)})
+                    continue
+                forms = [axis_forms(n, rng, full=False) for n in base4.shape]
+                hist = [tuple(slice(None) for _ in base4.shape)] if rng.random() < 0.7 else []
+                for _ in range(4):
+                    hist.append(tuple(rng.choice(f) for f in forms))
+                for idx in hist:
+                    want = base4[tuple(keep(i) for i in expand(idx, rank))]
+                    if want.size == 0:
+                        continue
+                    stats["dap4"] += 1
+                    stats["with_url_constraint"] += 1
+                    r.count((ci, "dap4-pre", path, slab4, repr(idx)))
+                    try:
+                        got = proxy.data[idx if len(idx) != 1 else idx[0]]
+                        check_array("dap4 (URL hyperslab) " + path, got, want,
+                                    {"shape": list(shape), "url_constraint": slab4, "index": repr(idx), "protocol": "dap4",
+                                     "history": [repr(h) for h in hist], "query": app4.seen[-1][1]})
+                    except Exception as e:  # noqa
+                        if len(direct) < 12:
+                            direct.append({"law": "a non-empty in-domain index can be read over DAP4 (URL hyperslab)", "index": repr(idx),
+                                           "shape": list(shape), "url_constraint": slab4, "variable": path, "error": repr(e)[:300]})
+        except Exception as e:  # noqa
+            direct.append({"law": "dataset opens over DAP4 with a hyperslab in the URL", "url_constraint": slab4, "error": repr(e)[:300]})
     r.extra["reads"] = stats
 
     try:
